@@ -17,9 +17,9 @@ PLANS = {
     "C02": {"quick": [("wt9", "full-unique,lean-shadow"), ("sc1", "full-unique,lean-shadow"), ("sc2", "full-unique,lean-shadow"), ("sc3", "full-unique,lean-shadow")],
             "thorough": [("wt10", "full-unique,lean-shadow,full-random"), ("wt10b", "full-unique,lean-random"),
                          ("wt9v", "full-unique,lean-shadow"), ("sc1", "full-unique,lean-random"), ("sc2", "full-unique,lean-random"), ("sc3", "full-unique,lean-random,lean-shadow")]},
-    "C03": {"quick": [("f7", "full-unique"), ("wt9", "lean-shadow"), ("sc4", "full-unique,lean-unique")],
+    "C03": {"quick": [("f7", "full-unique"), ("wt9", "lean-shadow"), ("sc4", "full-unique,lean-unique"), ("fs", "full-unique,lean-unique,lean-random")],
             "thorough": [("f7", "full-unique"), ("f7b", "full-unique"), ("wt10", "lean-unique,full-shadow"),
-                         ("wt10b", "lean-shadow"), ("sc4", "full-unique,lean-unique,lean-shadow")]},
+                         ("wt10b", "lean-shadow"), ("sc4", "full-unique,lean-unique,lean-shadow"), ("fs", "full-unique,lean-unique,lean-random")]},
 }
 
 EXPECTED_TOKENS = {"var", "int", "unit", "str", "thunk", "ret", "lam", "force", "exit", "ctor", "dtor", "fix", "i2s",
@@ -28,6 +28,8 @@ EXPECTED_TOKENS = {"var", "int", "unit", "str", "thunk", "ret", "lam", "force", 
 
 def expected_tokens(cfg):
     """Vacuity guard: the token kinds a configuration must reach within its bound."""
+    if cfg == "fs":
+        return {"lam", "thunk", "let", "exit"}
     if cfg.startswith("sc"):
         if cfg == "sc4":
             return {"match", "thunk", "force", "do", "exit", "ctor"}
@@ -154,7 +156,7 @@ def run(prop, tier):
         all_faults.update(faults)
         summ = os.path.join(W, "%s.%s.summary.json" % (cfg, prop))
         # sc4: a three-arm match in synthesis position; arm disagreement stays a definite error without annotations
-        lib.zyconf(["replay-core", cases, summ, modes], timeout=6000, env={"ZYCORE_LEAN_FAULTS": "T-Arm,K-Sort-Arm"} if cfg == "sc4" else None)
+        lib.zyconf(["replay-core", cases, summ, modes], timeout=6000, env={"ZYCORE_LEAN_FAULTS": "T-Arm,K-Sort-Arm"} if cfg == "sc4" else ({"ZYCORE_LEAN_FAULTS": "K-Sort-Binder"} if cfg == "fs" else None))
         s = json.load(open(summ))
         replayed += s["renders"]
         out.add_findings(s["findings"])
